@@ -4,7 +4,7 @@ check of a property anchored in a touched file must stay free of VIOLATION lines
 
   tools/harmless_patches.py import <src dir> <id>
   tools/harmless_patches.py verify <id> [--props C01,C02]
-  tools/harmless_patches.py all
+  tools/harmless_patches.py all [id prefix ...]
 
 exit status of `all`: 1 if any check printed a VIOLATION (= false alarm, or a patch that is not harmless: look at it), else 0.
 An undecided check (exit 2: the refactored code left the executor's subset and the bounded stand-in found nothing) is reported
@@ -101,6 +101,8 @@ def main():
     elif a[0] == "all":
         bad = 0
         for hid in sorted(os.listdir(os.path.join(V, "harmless"))):
+            if a[1:] and not any(hid.startswith(x) for x in a[1:]):
+                continue
             if os.path.isdir(os.path.join(V, "harmless", hid)):
                 r = verify(hid)
                 print(hid, "tests", r.get("baseline_passed"), "equiv", r.get("equiv_rc"), "ALARM " + ",".join(r["alarms"]) if r.get("alarms") else "green",
